@@ -68,31 +68,57 @@ def tool_versions():
     return out
 
 
-def make_elf(code, machine, bits=32, big=False, eflags=0):
-    """Minimal ET_REL ELF with one SHF_ALLOC|SHF_EXECINSTR section .text holding ``code``."""
+def make_elf(code, machine, bits=32, big=False, eflags=0, symbols=()):
+    """Minimal ET_REL ELF: one SHF_ALLOC|SHF_EXECINSTR section .text holding ``code`` and a symbol table with
+    one local symbol per (name, offset) in ``symbols``.  llvm-objdump restarts decoding at every symbol, so an
+    undecodable instance cannot desynchronise the following ones (it skips ONE byte after <unknown>)."""
     e = ">" if big else "<"
-    shstr = b"\0.text\0.shstrtab\0"
+    shstr = b"\0.text\0.shstrtab\0.symtab\0.strtab\0"
+    n_text, n_shstr, n_symtab, n_strtab = 1, 7, 17, 25
     ehsize, shentsize = (52, 40) if bits == 32 else (64, 64)
+    strtab = bytearray(b"\0")
+    syms = bytearray(16 if bits == 32 else 24)
+    for name, off in symbols:
+        ni = len(strtab)
+        strtab += name.encode() + b"\0"
+        if bits == 32:
+            syms += struct.pack(e + "IIIBBH", ni, off, 0, 0, 0, 1)
+        else:
+            syms += struct.pack(e + "IBBHQQ", ni, 0, 0, 1, off, 0)
+
+    def align(n, a=8):
+        return (n + a - 1) & ~(a - 1)
+
     off_text = ehsize
-    off_shstr = off_text + len(code)
-    off_sh = (off_shstr + len(shstr) + 7) & ~7
+    off_sym = align(off_text + len(code))
+    off_str = off_sym + len(syms)
+    off_shstr = off_str + len(strtab)
+    off_sh = align(off_shstr + len(shstr))
+    nsec = 5
     ident = b"\x7fELF" + bytes([1 if bits == 32 else 2, 2 if big else 1, 1, 0]) + b"\0" * 8
     if bits == 32:
         hdr = ident + struct.pack(e + "HHIIIIIHHHHHH", 1, machine, 1, 0, 0, off_sh, eflags, ehsize, 0, 0,
-                                  shentsize, 3, 2)
+                                  shentsize, nsec, 4)
 
-        def sh(name, typ, fl, off, size, align):
-            return struct.pack(e + "IIIIIIIIII", name, typ, fl, 0, off, size, 0, 0, align, 0)
+        def sh(name, typ, fl, off, size, link=0, info=0, al=1, ent=0):
+            return struct.pack(e + "IIIIIIIIII", name, typ, fl, 0, off, size, link, info, al, ent)
     else:
         hdr = ident + struct.pack(e + "HHIQQQIHHHHHH", 1, machine, 1, 0, 0, off_sh, eflags, ehsize, 0, 0,
-                                  shentsize, 3, 2)
+                                  shentsize, nsec, 4)
 
-        def sh(name, typ, fl, off, size, align):
-            return struct.pack(e + "IIQQQQIIQQ", name, typ, fl, 0, off, size, 0, 0, align, 0)
-    body = hdr + code + shstr
+        def sh(name, typ, fl, off, size, link=0, info=0, al=1, ent=0):
+            return struct.pack(e + "IIQQQQIIQQ", name, typ, fl, 0, off, size, link, info, al, ent)
+    body = bytearray(hdr + code)
+    body += b"\0" * (off_sym - len(body))
+    body += syms + strtab + shstr
     body += b"\0" * (off_sh - len(body))
-    body += sh(0, 0, 0, 0, 0, 0) + sh(1, 1, 6, off_text, len(code), 4) + sh(7, 3, 0, off_shstr, len(shstr), 1)
-    return body
+    nsym = len(syms) // (16 if bits == 32 else 24)
+    body += sh(0, 0, 0, 0, 0)
+    body += sh(n_text, 1, 6, off_text, len(code), al=4)
+    body += sh(n_symtab, 2, 0, off_sym, len(syms), link=3, info=nsym, al=4, ent=16 if bits == 32 else 24)
+    body += sh(n_strtab, 3, 0, off_str, len(strtab))
+    body += sh(n_shstr, 3, 0, off_shstr, len(shstr))
+    return bytes(body)
 
 
 class Decoded:
@@ -170,16 +196,22 @@ def parse_objdump(out):
     return res
 
 
-def run_llvm(isa, blob, workdir, tag="b"):
+def run_llvm(isa, blob, workdir, tag="b", spans=(), vma=0):
     cfg = ISAS[isa]
     path = os.path.join(workdir, "refdis-%s.elf" % tag)
+    # ARM ELF mapping symbols ($a / $t) select the instruction set; other ISAs get plain local symbols
+    pre = {"arm": "$a.", "arm:thumb": "$t."}.get(isa, "i")
+    symbols = [("%s%d" % (pre, i), off) for i, (off, _) in enumerate(spans)]
     with open(path, "wb") as f:
-        f.write(make_elf(blob, cfg["machine"], cfg.get("bits", 32), cfg.get("big", False), cfg.get("eflags", 0)))
+        f.write(make_elf(blob, cfg["machine"], cfg.get("bits", 32), cfg.get("big", False), cfg.get("eflags", 0),
+                         symbols))
     cmd = [LLVM_OBJDUMP, "-d", "-z", "--triple=" + cfg["triple"]]   # -z: do not elide runs of zero bytes
     if cfg.get("mattr"):
         cmd.append("--mattr=" + cfg["mattr"])
     if cfg.get("mcpu"):
         cmd.append("--mcpu=" + cfg["mcpu"])
+    if vma:
+        cmd.append("--adjust-vma=%#x" % vma)   # the blob is shown as if loaded at this address
     cmd += cfg.get("extra", []) + [path]
     r = subprocess.run(cmd, capture_output=True, text=True, timeout=600, errors="replace")
     try:
@@ -202,7 +234,7 @@ def run_gnu_x86(blob, workdir, tag="g"):
     return r.returncode, r.stdout, r.stderr
 
 
-def decode(isa, chunks, workdir=None, tool="llvm", _depth=0):
+def decode(isa, chunks, workdir=None, tool="llvm", _depth=0, vma=0):
     """Decode a batch of byte strings; returns one Decoded per chunk (status 'missing' if the tool died)."""
     workdir = workdir or os.environ.get("VERIF_TMP") or "."
     blob, spans = layout(isa, chunks)
@@ -212,8 +244,10 @@ def decode(isa, chunks, workdir=None, tool="llvm", _depth=0):
     if tool == "gnu":
         rc, so, se = run_gnu_x86(blob, workdir)
     else:
-        rc, so, se = run_llvm(isa, blob, workdir)
+        rc, so, se = run_llvm(isa, blob, workdir, spans=spans, vma=vma)
     table = parse_objdump(so)
+    if vma:
+        table = {off - vma: v for off, v in table.items()}
     if rc != 0 and len(chunks) > 1 and _depth < 12:
         # the tool crashed somewhere in the batch (seen: llvm-objdump avr): bisect
         mid = len(chunks) // 2
